@@ -45,8 +45,8 @@ def plan(ctx):
         n = k + m
         if thorough:
             sets = list(esets(n, 1, m))
-            if len(sets) > 400:
-                sets = [s for s in sets if len(s) == 1] + rnd.sample([s for s in sets if len(s) > 1], 200)
+            if len(sets) > 120:
+                sets = [s for s in sets if len(s) == 1] + rnd.sample([s for s in sets if len(s) > 1], 100)
         else:
             # every set of one or two erasures + two sampled sets of maximal size (each set costs a decode plus one reconstruct per erased index)
             sets = list(esets(n, 1, min(m, 2)))
